@@ -1,8 +1,16 @@
 """Struct type graphs for the field-resolution check (C15)."""
 import random
-from common import B
+
+
+def B(s):
+    """a name as its code points"""
+    return [ord(ch) for ch in s]
+
 
 NAMES = ["a", "A", "a_b", "AB", "b"]
+# names that are equal only under Unicode simple case folding (Fields.tla!FoldSets): the Kelvin
+# sign and k, the three sigmas, the three forms of dz with caron
+FOLDNAMES = ["k", "\u212a", "\u03c3", "\u03c2", "\u01c5"]
 
 
 def leaf(go, name=None, casing=0, omitzero=False, omitempty=False, string=False, kind="int"):
@@ -26,6 +34,8 @@ HAND = [
     [embed("E1", [leaf("A", "n"), leaf("B")], ptr=True), leaf("C", "n")],
     [leaf("A", omitzero=True), leaf("B", omitempty=True, kind="str"), leaf("C", omitempty=True, kind="slice"), leaf("D", string=True),
      leaf("E", omitzero=True, kind="slice"), leaf("F", omitempty=True)],
+    [leaf("A", "k", casing=1), leaf("B", "\u03c3"), leaf("C", "\u01c5", casing=2), leaf("D", "\u03c2", casing=1)],                  # folding beyond ASCII
+    [leaf("A", "\u212a"), leaf("B", "K", casing=1), leaf("C", "s"), leaf("D", "\u017f")],
     [leaf("A", kind="zeroer"), leaf("B", omitzero=True, kind="zeroer"), leaf("C", omitempty=True, kind="zeroer"), leaf("D")],   # IsZero method
 ]
 
@@ -38,7 +48,7 @@ def random_types(seed, n):
         go = r.choice([g for g in ["A", "B", "Ab", "AB", "C"] if g not in used])
         used.add(go)
         # two fields of one struct must not claim the same JSON name (that is a type error)
-        name = r.choice([n for n in [None, None] + NAMES if (n or go) not in names])
+        name = r.choice([n for n in [None, None] + NAMES + (FOLDNAMES if r.random() < 0.3 else []) if (n or go) not in names])
         names.add(name or go)
         return leaf(go, name, casing=r.choice([0, 0, 0, 1, 2]), omitzero=r.random() < 0.15, omitempty=r.random() < 0.15,
                     string=r.random() < 0.1, kind=r.choice(["int", "int", "str", "slice", "zeroer"]))
@@ -64,7 +74,8 @@ def random_types(seed, n):
     return out
 
 
-PROBES = [B(x) for x in ["a", "A", "a_b", "AB", "ab", "A-B", "b", "B", "Ab", "n", "x", "X", "zz", "E1", "C", "c", "a__b"]]
+PROBES = [B(x) for x in ["a", "A", "a_b", "AB", "ab", "A-B", "b", "B", "Ab", "n", "x", "X", "zz", "E1", "C", "c", "a__b",
+                                "K", "k", "\u212a", "\u03a3", "\u03c3", "\u03c2", "\u01c4", "\u01c5", "\u01c6"]]
 
 
 def wide(n, seed):
